@@ -761,6 +761,42 @@ pub fn gen_c16(cx: &mut Ctx) {
             }
         }
     }
+    // the quoted dialect: every cell quoted; names with a delimiter, a line break or an (escaped) quote
+    // inside; and the same with as many data records removed as there are embedded line breaks (the
+    // importer counts lines of the raw text)
+    for ns in [names(&["a"]), names(&["a", "b"]), names(&["c", "a", "b"])] {
+        let n = ns.len();
+        for _ in 0..if cx.thorough { 40 } else { 8 } {
+            let bits = random_bits(&mut cx.rng, n);
+            let q = |x: &str| format!("\"{}\"", x.replace('"', "\"\""));
+            let row = |r: usize, quoted: bool| -> String {
+                let mut cells: Vec<String> = (0..n).map(|c| if (r >> (n - 1 - c)) & 1 == 1 { s("1") } else { s("0") }).collect();
+                cells.push(if bits[r] { s("1") } else { s("0") });
+                if quoted { cells.iter().map(|c| q(c)).collect::<Vec<_>>().join(",") } else { cells.join(",") }
+            };
+            let rows_all: Vec<usize> = (0..1usize << n).collect();
+            for special in ["", ",", "\n", "\r\n", "\"", "\n\n", " "] {
+                let mut hdr: Vec<String> = ns.iter().map(|x| x.clone()).collect();
+                hdr[0] = format!("{}{}x", hdr[0], special);
+                let header_q = hdr.iter().map(|x| q(x)).chain([q("out")]).collect::<Vec<_>>().join(",");
+                let breaks = special.matches('\n').count();
+                for drop in [0usize, breaks] {
+                    for quote_rows in [false, true] {
+                        let kept: Vec<usize> = rows_all.iter().cloned().skip(drop.min(rows_all.len())).collect();
+                        let mut text = header_q.clone();
+                        for r in &kept {
+                            text.push('\n');
+                            text.push_str(&row(*r, quote_rows));
+                        }
+                        emit_csv(cx, &text, true);
+                        emit_csv(cx, &format!("{}\n", text), true);
+                    }
+                }
+            }
+            // an unterminated quote (outside the model: no panic)
+            emit_csv(cx, &format!("\"{}\n{}", ns[0], row(0, false)), true);
+        }
+    }
     // headers made of the importer's own default names, in other columns
     for ns in [names(&["x_1", "x_2"]), names(&["x_1", "y"]), names(&["p", "x_3", "x_4", "z"]), names(&["x_2", "x_0", "x_1"])] {
         let bits = random_bits(&mut cx.rng, ns.len());
